@@ -14,11 +14,23 @@
 (*           specification over the portable alphabet (decided by TLC with *)
 (*           LoadPipe.tla, not by either implementation)                   *)
 (*   dumper  TRUE iff the text was written by one of the two dumpers       *)
-(*   cases   << [name, py, c] >> one per projection and loader pair        *)
-(*           (events / nodes / objects of load_all / single-document load  *)
-(*           x Base / Safe / Full / Unsafe / default loader pair);         *)
+(*   plan    << delivery names >> the deliveries of the text that the      *)
+(*           specification of the delivery dimension (StreamPlace.tla:     *)
+(*           form x read limit; "str" = the text itself) asks for and the  *)
+(*           form can carry                                                *)
+(*   cases   << [name, dels, py, c] >> one per projection, loader pair and *)
+(*           delivery (events / nodes / objects of load_all / single-      *)
+(*           document load x Base / Safe / Full / Unsafe / default loader  *)
+(*           pair for "str"; events (Base) and objects (Safe) for every    *)
+(*           other delivery); cases with identical observations are merged *)
+(*           (dels = the deliveries the merged case stands for);           *)
 (*           py, c = [o |-> "ok" | "err", cls |-> class name of the error, *)
 (*                    v |-> the projection]                                *)
+(* A document is the same document in whatever form it reaches a loader,   *)
+(* and both back-ends accept every form (str, bytes in UTF-8 / UTF-16 with *)
+(* a byte order mark, text and binary streams whose read(n) may grant      *)
+(* fewer than n units): H compares the two back-ends within each delivery. *)
+(* (That one back-end gives the same result for all deliveries is C07.)    *)
 (* Projections (harness/drivers/backends.py) contain what the repository's *)
 (* own comparison of the two parsers looks at - event class, anchor, tag,  *)
 (* implicit, value, explicit, version, tags - and for nodes / objects the  *)
@@ -48,8 +60,13 @@ BadCases(t) == {i \in DOMAIN t.cases : CaseWhy(t.cases[i]) # "-"}
 
 H_BackendEq(t) == InDomain(t) => BadCases(t) = {}
 
+\* no vacuity: every planned delivery was observed (otherwise the run is broken, not the property)
+Delivered(t) == UNION {{t.cases[i].dels[k] : k \in DOMAIN t.cases[i].dels} : i \in DOMAIN t.cases}
+PlanMet(t) == \A j \in DOMAIN t.plan : t.plan[j] \in Delivered(t)
+
 \* one VERDICT line per trace, and one BAD line per case that breaks H (so that every broken case is reported, not only the first)
-Report(t) == /\ PrintT(<<"VERDICT", tid, H_BackendEq(t), "-", 0>>)
+Report(t) == /\ PlanMet(t) \/ PrintT(<<"UNMET", tid>>)
+             /\ PrintT(<<"VERDICT", tid, H_BackendEq(t), "-", 0>>)
              /\ H_BackendEq(t) \/ \A i \in BadCases(t) : PrintT(<<"BAD", tid, i, CaseWhy(t.cases[i])>>)
 
 Init == tid \in 1 .. Len(Traces)
